@@ -99,6 +99,14 @@ impl ReplaySrc {
     pub fn outcome(&self) -> ReplayOutcome {
         self.out.clone()
     }
+    /// Draws that run out AFTER a check already failed are not an error: the solver's trace ends at
+    /// the failing assertion, while the native run continues to the end of the body.
+    fn draw_failed(&mut self) {
+        if self.out.failed.is_empty() {
+            self.out.draw_error = true;
+        }
+    }
+
     fn take(&mut self, n: usize) -> Vec<u8> {
         // Kani prints one byte vector per `kani::any()` of a primitive; arrays come either as one
         // vector of N bytes or as N single-byte vectors.
@@ -110,19 +118,19 @@ impl ReplaySrc {
                     match self.vals.pop_front() {
                         Some(v) => res.extend(v),
                         None => {
-                            self.out.draw_error = true;
+                            self.draw_failed();
                             res.resize(n, 0);
                         }
                     }
                 }
                 if res.len() != n {
-                    self.out.draw_error = true;
+                    self.draw_failed();
                     res.resize(n, 0);
                 }
                 res
             }
             _ => {
-                self.out.draw_error = true;
+                self.draw_failed();
                 vec![0; n]
             }
         }
